@@ -121,7 +121,8 @@ func (x *Exec) mergeStates(sts []*State) *State {
 	for _, s := range live {
 		rs = append(rs, s.reach)
 	}
-	out.reach = x.tb.Or(rs...)
+	out.reach = x.factoredOr(rs)
+	own := x.ownConds(rs)
 	sameEpoch := true
 	for _, s := range live[1:] {
 		if s.epoch != live[0].epoch {
@@ -132,8 +133,8 @@ func (x *Exec) mergeStates(sts []*State) *State {
 		out.epoch = live[0].epoch
 	} else {
 		e := x.newEpoch()
-		for _, s := range live {
-			e.merge = append(e.merge, epochArm{s.reach, s.epoch})
+		for i, s := range live {
+			e.merge = append(e.merge, epochArm{own[i], s.epoch})
 		}
 		out.epoch = e
 	}
@@ -152,7 +153,7 @@ func (x *Exec) mergeStates(sts []*State) *State {
 		srt := x.classSort[c]
 		t := x.heapGet(live[len(live)-1], c, srt)
 		for i := len(live) - 2; i >= 0; i-- {
-			t = x.tb.Ite(live[i].reach, x.heapGet(live[i], c, srt), t)
+			t = x.tb.Ite(own[i], x.heapGet(live[i], c, srt), t)
 		}
 		out.heap[c] = t
 	}
@@ -179,12 +180,91 @@ func (x *Exec) mergeStates(sts []*State) *State {
 		for i := len(live) - 2; i >= 0; i-- {
 			ci := live[i].cells[k]
 			for j := range res {
-				res[j] = x.tb.Ite(live[i].reach, ci[j], res[j])
+				res[j] = x.tb.Ite(own[i], ci[j], res[j])
 			}
 		}
 		out.cells[k] = res
 	}
 	return out
+}
+
+// ownConds returns, for mutually exclusive path conditions, the part of each that is not shared
+// by all of them.  Under the merged condition (shared part & disjunction) these distinguish the
+// paths exactly like the full conditions do, but they are much smaller selectors for ite merges.
+func (x *Exec) ownConds(rs []*Term) []*Term {
+	tb := x.tb
+	conjs := func(t *Term) []*Term {
+		if t.Op == "and" {
+			return t.Args
+		}
+		return []*Term{t}
+	}
+	common := map[int]int{}
+	for _, r := range rs {
+		seen := map[int]bool{}
+		for _, c := range conjs(r) {
+			if !seen[c.ID] {
+				seen[c.ID] = true
+				common[c.ID]++
+			}
+		}
+	}
+	out := make([]*Term, len(rs))
+	for i, r := range rs {
+		var own []*Term
+		for _, c := range conjs(r) {
+			if common[c.ID] != len(rs) {
+				own = append(own, c)
+			}
+		}
+		out[i] = tb.And(own...)
+	}
+	return out
+}
+
+// factoredOr builds the disjunction of path conditions with their common conjuncts pulled out:
+// (A & B & C) | (A & B & D)  =  A & B & (C | D).  Keeps hypotheses flat for slicing.
+func (x *Exec) factoredOr(rs []*Term) *Term {
+	tb := x.tb
+	if len(rs) < 2 {
+		return tb.Or(rs...)
+	}
+	conjs := func(t *Term) []*Term {
+		if t.Op == "and" {
+			return t.Args
+		}
+		return []*Term{t}
+	}
+	common := map[int]int{}
+	for _, r := range rs {
+		seen := map[int]bool{}
+		for _, c := range conjs(r) {
+			if !seen[c.ID] {
+				seen[c.ID] = true
+				common[c.ID]++
+			}
+		}
+	}
+	var shared []*Term
+	for _, c := range conjs(rs[0]) {
+		if common[c.ID] == len(rs) {
+			shared = append(shared, c)
+		}
+	}
+	if len(shared) == 0 {
+		return tb.Or(rs...)
+	}
+	var rest []*Term
+	for _, r := range rs {
+		var own []*Term
+		for _, c := range conjs(r) {
+			if common[c.ID] != len(rs) {
+				own = append(own, c)
+			}
+		}
+		rest = append(rest, tb.And(own...))
+	}
+	return tb.And(append(shared, tb.Or(rest...))...)
 }
 
 func (x *Exec) assume(st *State, c *Term) {
@@ -278,6 +358,13 @@ func (x *Exec) loadLoc(st *State, t types.Type, loc Loc) []*Term {
 	}
 	ls := x.leaves(t)
 	out := make([]*Term, len(ls))
+	if strings.HasPrefix(loc.Class, "c:") {
+		for i, l := range ls {
+			out[i] = x.tb.UF("const:"+loc.Class[2:]+l.Path, l.Sort)
+		}
+		x.assumeWF(st, t, out)
+		return out
+	}
 	for i, l := range ls {
 		cls := loc.Class + l.Path
 		h := x.heapGet(st, cls, x.locArraySort(len(loc.Idx), l.Sort))
@@ -386,7 +473,7 @@ func (x *Exec) assumeWF(st *State, t types.Type, l []*Term) {
 
 func (x *Exec) sliceWF(arr, off, ln, cp *Term) *Term {
 	z := x.tb.BVInt(0, 64)
-	lim := x.tb.BVInt(1<<48, 64) // no Go allocation approaches 2^48 bytes
+	lim := x.tb.BVInt(1<<48, 64) // amd64 address space: no Go slice is longer than 2^48
 	return x.tb.And(
 		x.tb.SLe(z, off), x.tb.SLe(z, ln), x.tb.SLe(ln, cp), x.tb.SLe(cp, lim), x.tb.SLe(off, lim),
 		x.tb.Implies(x.tb.Eq(arr, z), x.tb.Eq(cp, z)),
